@@ -90,7 +90,7 @@ def make_spec(rng, ctx):
     for k in ("se2", "se3"):
         if k in kinds:
             for _ in range(int(rng.integers(1, 4))):
-                pid = int(rng.integers(0, 50))
+                pid = int(rng.integers(0, 50)) if rng.random() < 0.6 else 0  # id 0 is also the id every 2-D landmark edge implicitly carries
                 if (k, pid) in pid_used:
                     continue
                 pid_used.add((k, pid))
@@ -323,6 +323,26 @@ def roundtrip_case(ctx, i, rng):
                 return
             if not compare_graphs(ctx, g0, g, c, dict(feats, cycle=c), case):
                 return
+            if c == 1:
+                # the parameter table that comes back is the one the graph was *built* with (compared with the plain data of the spec, not with the live
+                # exporting graph: an export that rewrites its own table would otherwise agree with itself)
+                okp, whyp = True, None
+                gp = g._g2o_params or {}
+                for prm in spec.get("params", []):
+                    got = gp.get((prm["tag"], prm["id"]))
+                    kk = "se2" if prm["tag"] == "PARAMS_SE2OFFSET" else "se3"
+                    want = M.fl(M.mkpose(kk, prm["value"]))
+                    if got is None:
+                        okp, whyp = False, ("parameter missing after the round trip", prm["tag"], prm["id"])
+                        break
+                    have = M.fl(got.value)
+                    if not all(math.isfinite(x) for x in want):
+                        continue
+                    same = (have[:2] == want[:2] and R.ang_diff(have[2], want[2]) <= 8 * R.EPS * math.pi) if kk == "se2" else M.same_numbers("se3", have, want)
+                    if not same:
+                        okp, whyp = False, ("parameter value", prm["tag"], prm["id"], have, want)
+                        break
+                ctx.check("roundtrip-offsets", okp, dict(feats, what="parameter table vs the values the graph was built with"), {"why": whyp}, case)
             if c == 1 and not ext:
                 # the same file read with registered edge types that also recognise built-in lines: still one edge per line
                 from .. import custom
